@@ -9,6 +9,7 @@ import importlib
 import inspect
 import json
 import os
+import re
 import sys
 import time
 import traceback
@@ -159,6 +160,37 @@ def main(argv):
             theirs = other._codepoints if kind == 1 else [ord(ch) for ch in other]
             return _elementwise(mine, theirs)
         builtinslib.LazyIntSymbolicStr.__eq__ = _str_eq
+
+        # CrossHair 0.0.110 models a non-MULTILINE `$` as "end of string" only; Python's `$` also
+        # matches just before a trailing newline.  (Found with a seeded `^[0-9a-fA-F]+$` rewrite of
+        # _ishexdigits that was wrongly Confirmed.)  Rewrite `$` into the equivalent look-ahead
+        # `(?=\n?\Z)` in the parsed pattern, which the symbolic matcher does handle.
+        from crosshair.libimpl import relib as _relib
+        _rp = _relib.re_parser
+        _orig_parse = _relib.parse
+
+        def _fix_dollar(seq, flags):
+            data = seq.data if hasattr(seq, "data") else seq
+            for i, (op, av) in enumerate(list(data)):
+                if op is _rp.AT and av is _rp.AT_END and not (flags & re.MULTILINE):
+                    data[i] = (_rp.ASSERT, (1, [(_rp.MAX_REPEAT, (0, 1, [(_rp.LITERAL, 10)])),
+                                                (_rp.AT, _rp.AT_END_STRING)]))
+                elif op in (_rp.MAX_REPEAT, _rp.MIN_REPEAT):
+                    _fix_dollar(av[2], flags)
+                elif op is _rp.BRANCH:
+                    for alt in av[1]:
+                        _fix_dollar(alt, flags)
+                elif op is _rp.SUBPATTERN:
+                    _fix_dollar(av[3], flags)
+                elif op in (_rp.ASSERT, _rp.ASSERT_NOT):
+                    _fix_dollar(av[1], flags)
+            return seq
+
+        def _parse(pattern, flags=0, *a, **k):
+            p = _orig_parse(pattern, flags, *a, **k)
+            st = getattr(p, "state", None)
+            return _fix_dollar(p, getattr(st, "flags", flags))
+        _relib.parse = _parse
 
         # count solver queries and time
         qstat = {"n": 0, "t": 0.0}
